@@ -1383,6 +1383,55 @@ mod c08_shift {
 }
 
 // ------------------------------------------------------------------------------------------------
+// C11 — fft64 convolution_apply_dft into a MULTI-COLUMN destination with more limbs than the product populates (seed C11-4): two runs that differ only in the
+// previous contents of the destination give the same selected column (every limb written, the tail zero-filled) and leave the other column bit-for-bit alone.
+// Operands are the all-zero prepared vectors (the f64 kernels then run on constants); the stale destination is fully symbolic.  Structure-independent complement of the
+// unbounded Verus unit cnv_apply_fft64 (undecided when the zero-fill loop is rewritten).
+// ------------------------------------------------------------------------------------------------
+mod c11_cnv {
+    use super::fmt_stub;
+    use crate::reference::fft64::convolution::convolution_apply_dft;
+    use poulpy_hal::layouts::{CnvPVecL, CnvPVecR, VecZnxDft, ZnxView, ZnxViewMut};
+    type BE = crate::FFT64Ref;
+
+    fn run(res_col: usize, stale: &[u64; 48]) -> VecZnxDft<poulpy_hal::layouts::DeviceBuf<BE>, BE> {
+        const N: usize = 8;
+        let a: CnvPVecL<_, BE> = CnvPVecL::alloc(N, 1, 1);
+        let b: CnvPVecR<_, BE> = CnvPVecR::alloc(N, 1, 1);
+        let mut res: VecZnxDft<_, BE> = VecZnxDft::alloc(N, 2, 3);
+        let mut t = 0;
+        while t < 48 {
+            res.raw_mut()[t] = f64::from_bits(stale[t]);
+            t += 1;
+        }
+        let mut tmp = [0f64; 16];
+        convolution_apply_dft::<_, _, _, BE>(0, &mut res, res_col, &a, 0, &b, 0, &mut tmp);
+        res
+    }
+    #[kani::proof]
+    #[kani::unwind(50)]
+    #[kani::stub(alloc::fmt::format, fmt_stub)]
+    fn c11_cnv_apply_frame__n8_c2_r3() {
+        let s1: [u64; 48] = kani::any();
+        let s2: [u64; 48] = kani::any();
+        let col: usize = kani::any();
+        kani::assume(col < 2);
+        let r1 = run(col, &s1);
+        let r2 = run(col, &s2);
+        let mut j = 0;
+        while j < 3 {
+            let mut k = 0;
+            while k < 8 {
+                assert!(r1.at(col, j)[k].to_bits() == r2.at(col, j)[k].to_bits(), "C11:cnv_apply_dft selected column independent of prior contents (tail limbs zero-filled)");
+                assert!(r1.at(1 - col, j)[k].to_bits() == s1[8 * (j * 2 + (1 - col)) + k], "C11:cnv_apply_dft leaves the other column untouched");
+                k += 1;
+            }
+            j += 1;
+        }
+    }
+}
+
+// ------------------------------------------------------------------------------------------------
 // C09 — ring merging against the index-level model (bounded in shape, symbolic limb values, stale result contents):
 // coefficient k of part i is coefficient gap*k + i of the merged polynomial, limbs a part does not have read as zero, the other
 // column of the result is untouched.  Complements the unbounded Verus unit vec_znx_merge, whose loop anchors are
@@ -1392,7 +1441,7 @@ mod c09_rings {
     use super::fmt_stub;
     use crate::reference::vec_znx::vec_znx_merge_rings;
     use crate::reference::znx::ZnxRef;
-    use poulpy_hal::layouts::{VecZnx, ZnxView, ZnxViewMut};
+    use poulpy_hal::layouts::{VecZnx, ZnxInfos, ZnxView, ZnxViewMut};
 
     fn part(n: usize, size: usize) -> VecZnx<Vec<u8>> {
         let mut a: VecZnx<Vec<u8>> = VecZnx::alloc(n, 2, size);
@@ -1456,6 +1505,91 @@ mod c09_rings {
             t += 1;
         }
     }
+    // Index-level models of the out-of-place column operations into a result with MORE limbs than the operand(s) and stale contents, two columns:
+    // limb j of the selected column is op(a_j [, b_j]) with absent operand limbs read as zero, the other column is untouched.  Structure-independent complements of the
+    // unbounded Verus units vec_znx_arith / vec_znx_ring (which go undecided when a body is restructured).  N = 4, operand a: 1 limb, b: 2 limbs, result: 3 limbs.
+    fn bounded_part(n: usize, size: usize) -> VecZnx<Vec<u8>> {
+        let a = part(n, size);
+        let mut u = 0;
+        while u < n * 2 * size {
+            kani::assume(a.raw()[u] > -(1i64 << 61) && a.raw()[u] < (1i64 << 61));
+            u += 1;
+        }
+        a
+    }
+    fn rot_coeff(a: &VecZnx<Vec<u8>>, col: usize, limb: usize, t: usize, p: i64) -> i64 {
+        let n = a.n() as i64;
+        let q = p.rem_euclid(2 * n);
+        let src = (t as i64 - q).rem_euclid(2 * n);
+        if src < n { a.at(col, limb)[src as usize] } else { a.at(col, limb)[(src - n) as usize].wrapping_neg() }
+    }
+    fn aut_coeff(a: &VecZnx<Vec<u8>>, col: usize, limb: usize, t: usize, p: i64) -> i64 {
+        // coefficient t of a(X^p): sum over s with s*p = t (mod 2N) of +-a_s; p odd, so s is unique
+        let n = a.n() as i64;
+        let mut s = 0i64;
+        let mut out = 0i64;
+        while s < n {
+            let e = (s * p).rem_euclid(2 * n);
+            if e == t as i64 { out = a.at(col, limb)[s as usize]; }
+            if e == t as i64 + n { out = a.at(col, limb)[s as usize].wrapping_neg(); }
+            s += 1;
+        }
+        out
+    }
+    fn column_op_case(op: u8, p: i64) {
+        use crate::reference::vec_znx::{vec_znx_add_into, vec_znx_automorphism, vec_znx_copy, vec_znx_negate, vec_znx_rotate, vec_znx_sub};
+        const N: usize = 4;
+        let a = bounded_part(N, 1);
+        let b = bounded_part(N, 2);
+        let mut res = part(N, 3);
+        let before = res.clone();
+        match op {
+            0 => vec_znx_rotate::<_, _, ZnxRef>(p, &mut res, 1, &a, 0),
+            1 => vec_znx_automorphism::<_, _, ZnxRef>(p, &mut res, 1, &a, 0),
+            2 => vec_znx_copy::<_, _, ZnxRef>(&mut res, 1, &a, 0),
+            3 => vec_znx_negate::<_, _, ZnxRef>(&mut res, 1, &a, 0),
+            4 => vec_znx_add_into::<_, _, _, ZnxRef>(&mut res, 1, &a, 0, &b, 1),
+            5 => vec_znx_sub::<_, _, _, ZnxRef>(&mut res, 1, &a, 0, &b, 1),
+            _ => vec_znx_sub::<_, _, _, ZnxRef>(&mut res, 1, &b, 1, &a, 0),
+        }
+        let mut j = 0;
+        while j < 3 {
+            let mut t = 0;
+            while t < N {
+                let av = if j < 1 { a.at(0, j)[t] } else { 0 };
+                let bv = if j < 2 { b.at(1, j)[t] } else { 0 };
+                let want = match op {
+                    0 => if j < 1 { rot_coeff(&a, 0, j, t, p) } else { 0 },
+                    1 => if j < 1 { aut_coeff(&a, 0, j, t, p) } else { 0 },
+                    2 => av,
+                    3 => av.wrapping_neg(),
+                    4 => av.wrapping_add(bv),
+                    5 => av.wrapping_sub(bv),
+                    _ => bv.wrapping_sub(av),
+                };
+                assert!(op != 0 || res.at(1, j)[t] == want, "C09:vec_znx_rotate limb j == X^p * a_j, zero past the operand's limbs");
+                assert!(op != 1 || res.at(1, j)[t] == want, "C09:vec_znx_automorphism limb j == a_j(X^p), zero past the operand's limbs");
+                assert!(op != 2 || res.at(1, j)[t] == want, "C09:vec_znx_copy limb j == a_j, zero past the operand's limbs");
+                assert!(op != 3 || res.at(1, j)[t] == want, "C09:vec_znx_negate limb j == -a_j, zero past the operand's limbs");
+                assert!(op != 4 || res.at(1, j)[t] == want, "C09:vec_znx_add_into limb j == a_j + b_j with absent limbs read as zero");
+                assert!(op != 5 || res.at(1, j)[t] == want, "C09:vec_znx_sub limb j == a_j - b_j with absent limbs read as zero (a shorter)");
+                assert!(op != 6 || res.at(1, j)[t] == want, "C09:vec_znx_sub limb j == a_j - b_j with absent limbs read as zero (b shorter)");
+                assert!(res.at(0, j)[t] == before.at(0, j)[t], "C09:column operation leaves the other column untouched");
+                t += 1;
+            }
+            j += 1;
+        }
+    }
+    macro_rules! col_harness {
+        ($name:ident, $body:expr) => {
+            #[kani::proof]
+            #[kani::unwind(26)]
+            #[kani::stub(alloc::fmt::format, fmt_stub)]
+            fn $name() {
+                $body;
+            }
+        };
+    }
     macro_rules! rings_harness {
         ($name:ident, $body:expr) => {
             #[kani::proof]
@@ -1469,6 +1603,15 @@ mod c09_rings {
     rings_harness!(c09_merge_rings__g2_n1_s21_r2, merge_case::<2>(1, [2, 1], 2));
     rings_harness!(c09_merge_rings__g2_n1_s12_r3, merge_case::<2>(1, [1, 2], 3));
     rings_harness!(c09_merge_rings__g2_n2_s21_r2, merge_case::<2>(2, [2, 1], 2));
+    col_harness!(c09_col_rotate__n4_p3, column_op_case(0, 3));
+    col_harness!(c09_col_rotate__n4_pm5, column_op_case(0, -5));
+    col_harness!(c09_col_automorphism__n4_p3, column_op_case(1, 3));
+    col_harness!(c09_col_automorphism__n4_pm1, column_op_case(1, -1));
+    col_harness!(c09_col_copy__n4, column_op_case(2, 0));
+    col_harness!(c09_col_negate__n4, column_op_case(3, 0));
+    col_harness!(c09_col_add__n4, column_op_case(4, 0));
+    col_harness!(c09_col_sub_a_short__n4, column_op_case(5, 0));
+    col_harness!(c09_col_sub_b_short__n4, column_op_case(6, 0));
     rings_harness!(c09_mul_xp_minus_one__n4_a1_r2_p1, mul_xp_minus_one_case(1));
     rings_harness!(c09_mul_xp_minus_one__n4_a1_r2_pm5, mul_xp_minus_one_case(-5));
     // (split_ring in the same shapes exceeds 600 s in CBMC: the reference goes through znx_switch_ring + znx_rotate on a scratch limb; the unbounded Verus unit vec_znx_split stands alone)
